@@ -113,6 +113,42 @@ fn cycle(rng: &mut Rng, path: &Path, canon: &Path, mutable: bool, content: &mut 
     }
 }
 
+// one read-only new/drop cycle on a sparse file of `size` bytes (a hole: every element reads 0), too large to hold
+// its content in memory: the ends and a few elements in between are read
+fn big_cycle(rng: &mut Rng, path: &Path, size: u64) -> Cyc {
+    match MemoryMap::new(path, MappingMode::ReadOnly) {
+        Ok(map) => {
+            let len = map.len();
+            let same = {
+                let slice: &[u64] = map.as_ref();
+                let mut ok = slice.len() as u64 == size / 8 && size % 8 == 0;
+                if !slice.is_empty() {
+                    let mut pos = vec![0usize, slice.len() - 1, slice.len() / 2, (1usize << 29) - 1, 1usize << 29];
+                    for _ in 0..16 {
+                        pos.push(rng.below(slice.len() as u64) as usize);
+                    }
+                    for i in pos {
+                        if i < slice.len() {
+                            ok &= slice[i] == 0;
+                        }
+                    }
+                }
+                ok
+            };
+            let during = mapped_bytes(path);
+            drop(map);
+            let after = mapped_bytes(path);
+            Cyc { ok: 0, len: len as u64, same, during, after, wr: 0, fw: Vec::new(), sl: Vec::new() }
+        }
+        Err(e) => {
+            let msg = format!("{}", e);
+            let ok = if msg.contains("multiple of 8") { 2 } else if msg.contains("Memory mapping failed") { 3 } else if e.raw_os_error().is_some() { 1 } else { 4 };
+            let during = mapped_bytes(path);
+            Cyc { ok, len: 0, same: false, during, after: during, wr: 0, fw: Vec::new(), sl: Vec::new() }
+        }
+    }
+}
+
 pub fn run(rng: &mut Rng, out: &mut Out, thorough: bool, _variant: &str) {
     let dir: PathBuf = match std::env::var("VERIF_RUNDIR") {
         Ok(d) if !d.is_empty() => PathBuf::from(d),
@@ -181,5 +217,26 @@ pub fn run(rng: &mut Rng, out: &mut Out, thorough: bool, _variant: &str) {
                 out.case("map", term, json, true);
             }
         }
+    }
+    // files of 4 GiB and more (sparse: a hole of that size), sizes that are and are not multiples of 8
+    for size in [(1u64 << 32) - 8, 1u64 << 32, (1u64 << 32) + 8, (1u64 << 32) + 4, (1u64 << 33) + 4096] {
+        fileno += 1;
+        let path = dir.join(format!("c18_{}_{}.bin", std::process::id(), fileno));
+        let made = fs::File::create(&path).and_then(|f| f.set_len(size));
+        if made.is_err() {
+            out.stat("size.huge.not_created");
+            let _ = fs::remove_file(&path);
+            continue;
+        }
+        let r = catch(|| big_cycle(rng, &path, size));
+        let c = match r {
+            Res::Ok(c) => c,
+            Res::Panic(_, _) => Cyc { ok: 5, len: 0, same: false, during: mapped_bytes(&path), after: mapped_bytes(&path), wr: 0, fw: Vec::new(), sl: Vec::new() },
+        };
+        let _ = fs::remove_file(&path);
+        out.stat("size.huge");
+        let term = format!("CMap {} {} (Some {}) [Cyc {} {} {} {} {} {} {} {}]", b(DBG), b(false), n(size), c.ok, c.len, b(c.same), c.during, c.after, c.wr, nlist(&c.fw), nlist(&c.sl));
+        let json = format!("{{\"size\":{},\"mutable\":false,\"sparse\":true,\"cycles\":[{{\"ok\":{},\"len\":{},\"same\":{},\"during\":{},\"after\":{}}}]}}", size, c.ok, c.len, c.same, c.during, c.after);
+        out.case("map", term, json, true);
     }
 }
